@@ -53,6 +53,14 @@ class ReaderCfg(Cfg):
             if len(node.target.elts) != 4:
                 raise AnalysisError("record loop of read_events no longer unpacks (wd, mask, cookie, name)")
             return ast.Tuple([ast.Name(c, ast.Load()) for c in canon], ast.Load())
+        if isinstance(node.target, ast.Name) and "_parse_event_buffer" in ast.unparse(iter_term):
+            # the record is kept whole in one local (a tuple, or a NamedTuple erased to one): same canonical components by position,
+            # provided the decoder yields 4-tuples
+            fi = self.program.find_method("Inotify", "_parse_event_buffer")
+            ys = [n.value for n in ast.walk(fi.node) if isinstance(n, ast.Yield)] if fi else []
+            if ys and all(isinstance(y, ast.Tuple) and len(y.elts) == 4 for y in ys):
+                return ast.Tuple([ast.Name(c, ast.Load()) for c in ["wd", "mask", "cookie", "name"]], ast.Load())
+            raise AnalysisError("record loop of read_events: the decoder's records are not 4-tuples (wd, mask, cookie, name)")
         return None
 
     def canon_term(self, t, st):
